@@ -308,7 +308,10 @@ PLANS["C10"] = dict(
     mc=[("c10mon", dict(MonitorMode="TRUE", Hosts='{"h1"}', Kinds='{"timeout", "readerr", "badhl"}', MaxIn=4, MaxT=5, Retries=2, LinkFaults="TRUE"),
          dict(MaxIn=5, MaxT=6)),
         ("c10", dict(Hosts='{"h1"}', Kinds='{"timeout", "readerr"}', MaxIn=3, MaxT=6, Retries=2, WriteFaults="TRUE",
-                     LinkFaults="TRUE", MaxHolds=0), dict(MaxIn=4, MaxT=6, MaxHolds=0))],
+                     LinkFaults="TRUE", MaxHolds=0), dict(MaxIn=4, MaxT=6, MaxHolds=0)),
+        # re-established sessions (D_Redial), failing forwarding reads, closed watcher channel
+        ("c10redial", dict(Hosts='{"h1"}', Kinds='{"readerrsys", "rasame"}', MaxIn=2, MaxT=4, Retries=2, WriteFaults="TRUE",
+                           FwdFaults="TRUE", LinkFaults="TRUE", MaxSessions=2), dict(MaxT=5, MaxSessions=3))],
     env=[("a", dict(Srcs='{"h1", "unspec"}', Kinds='{"timeout", "readerr_other", "readerr_sys", "link"}',
                     FailDsts='{"h1", "allnodes"}', Terms="{TRUE}", MaxEv=3, MaxT=7), dict(MaxEv=4, MaxT=8),
           [DEF, FAST, dict(cfg=dict(DEF["cfg"], mode="mon")), dict(cfg=dict(DEF["cfg"], dials=["ok", "lnr", "ok"]))])],
@@ -316,7 +319,7 @@ PLANS["C10"] = dict(
     fixed=[],
     nrand=40, nrand_thorough=800, rand_variants=[DEF, FAST, dict(cfg=dict(DEF["cfg"], mode="mon"))],
     rand=lambda rng: rand_faults(rng),
-    nontrivial=lambda s: any(x["op"] in ("timeout", "readerr", "link", "failw") for x in s["steps"]),
+    nontrivial=lambda s: any(x["op"] in ("timeout", "readerr", "link", "failw", "fwderr") for x in s["steps"]),
     rule="session level: TLC-enumerated histories over {RS, receive timeout, read error (plain / syscall), link event, "
          "failing transmit, stop} for advertiser and monitor, runs of 1..6 consecutive timeouts, random fault storms; "
          "non-trivial = at least one injected fault",
@@ -329,7 +332,7 @@ def rand_faults(rng):
     for i in range(rng.randrange(3, 30)):
         t += rng.choice([0, 0, 50, 100, 150, 200, 250, 500, 1000, 3000])
         steps.append({"op": "adv", "to": t})
-        k = rng.choice(["rs", "rs", "timeout", "timeout", "timeout", "readerr", "link", "failw", "okw"])
+        k = rng.choice(["rs", "rs", "timeout", "timeout", "timeout", "readerr", "link", "failw", "okw", "fwderr", "ra", "wclose"])
         if k == "rs":
             steps.append({"op": "rs", "src": rng.choice(["fe80::a1", "unspec"])})
         elif k == "timeout":
@@ -341,9 +344,16 @@ def rand_faults(rng):
             steps.append({"op": "link"})
         elif k == "failw":
             steps.append({"op": "failw", "dst": rng.choice(["fe80::a1", "allnodes"]), "class": rng.choice(["other", "sys"])})
+        elif k == "fwderr":         # the forwarding-state read fails from now on (until an "okw")
+            steps.append({"op": "fwderr", "class": rng.choice(["other", "sys"])})
+        elif k == "ra":             # a foreign RA: our own RA is built for the comparison
+            steps.append({"op": "msg", "kind": "ra", "src": "fe80::b1", "variant": rng.choice(["same", "diffhl"])})
+        elif k == "wclose":         # the link-state watcher ends: its channel is closed (not a link change)
+            steps.append({"op": "wclose"})
         else:
             steps.append({"op": "failw", "dst": "fe80::a1", "class": ""})
             steps.append({"op": "failw", "dst": "allnodes", "class": ""})
+            steps.append({"op": "fwderr", "class": ""})
     steps.append({"op": "adv", "to": t + 8000})
     if rng.random() < 0.5:
         steps.append({"op": "cancel", "term": rng.random() < 0.5})
@@ -383,6 +393,21 @@ def _c10_fixed():
             steps = [{"op": "adv", "to": 5000}] + [{"op": "timeout"} for _ in range(4)] + [{"op": "adv", "to": 5400}, {"op": "rs", "src": "fe80::a1"}] + \
                     [{"op": "timeout"} for _ in range(min(k, 4))] + [{"op": "adv", "to": 9000}]
             out.append({"cfg": dict(DEF["cfg"], mode=mode), "steps": steps, "src": "timeouts-reset-%d" % k})
+    # the forwarding-state read fails: in a scheduled transmission, in the comparison with a foreign RA, in the initial RA
+    # of a re-established session, in the final RA
+    for cls in ("other", "sys"):
+        for trig in ([{"op": "rs", "src": "fe80::a1"}], [{"op": "rs", "src": "unspec"}], [{"op": "msg", "kind": "ra", "src": "fe80::b1", "variant": "same"}],
+                     [{"op": "msg", "kind": "ra", "src": "fe80::b1", "variant": "diffhl"}], [{"op": "link"}], [{"op": "cancel", "term": True}], []):
+            steps = [{"op": "adv", "to": 5000}, {"op": "fwderr", "class": cls}] + trig + \
+                    [{"op": "adv", "to": 5600}, {"op": "fwderr", "class": ""}, {"op": "adv", "to": 9000}, {"op": "rs", "src": "fe80::a1"},
+                     {"op": "adv", "to": 12000}]
+            out.append({"cfg": dict(DEF["cfg"]), "steps": steps, "src": "fwderr"})
+            out.append({"cfg": dict(FAST["cfg"]), "steps": steps, "src": "fwderr"})
+    for at in (1000, 5000):
+        steps = [{"op": "adv", "to": at}, {"op": "wclose"}, {"op": "adv", "to": at + 500}, {"op": "rs", "src": "fe80::a1"}, {"op": "adv", "to": at + 4000},
+                 {"op": "rs", "src": "unspec"}, {"op": "adv", "to": at + 9000}, {"op": "cancel", "term": True}]
+        out.append({"cfg": dict(DEF["cfg"]), "steps": steps, "src": "watch-closed"})
+        out.append({"cfg": dict(DEF["cfg"], mode="mon"), "steps": steps, "src": "watch-closed"})
     # two interface tasks under the real Server.Serve: a fatal failure of one ends both (and Serve), a recoverable one is
     # local to its interface; the other interface keeps serving meanwhile
     for mode in ("adv", "mon"):
